@@ -129,6 +129,38 @@ def v2_phase_gating(F, r):
     if len(ms) != 1:
         raise AnchorError("MinVariation::is_termination")
     m = ms[0]
+    # the window is maintained in EVERY generation that has a best individual, whatever the phase: update_and_check is passed on every such path
+    mfn = F.fns[m]
+    upd = [bi for bi, t in mir.calls(mfn) if t["callee"].endswith("::update_and_check")]
+    nxt = [bi for bi, t in mir.calls(mfn) if t["callee"].endswith("Iterator::next")]
+    if not upd:
+        r.fail("is_termination: window", "the fitness window is no longer updated from is_termination", F.loc(m))
+    elif len(nxt) == 1:
+        some_edge = mir.variant_edge(mir.option_edges(mfn, nxt[0]), 1)
+        if some_edge is None:
+            # the option is bound to a variable first and matched later: look for the switch on the discriminant of (a copy of) the call's result
+            d = mfn["bbs"][nxt[0]]["t"]["dest"]["l"]
+            copies = {d}
+            for _ in range(3):
+                for _, _, st in mir.stmts(mfn):
+                    if st["r"]["k"] == "use" and mir.is_place(st["r"]["o"][0]) and st["r"]["o"][0]["l"] in copies and not st["r"]["o"][0]["p"] and not st["d"]["p"]:
+                        copies.add(st["d"]["l"])
+            for sb, bb in enumerate(mfn["bbs"]):
+                tt = bb["t"]
+                if tt["k"] == "switch" and mir.is_place(tt["o"]):
+                    for st in bb["s"]:
+                        if st["r"]["k"] == "discr" and st["d"]["l"] == tt["o"]["l"] and st["r"]["o"][0]["l"] in copies and not st["r"]["o"][0]["p"]:
+                            tgt = [tb for v, tb in tt["tg"] if v == 1]
+                            some_edge = (sb, tgt[0] if tgt else tt["else"])
+        if some_edge is None:
+            r.ok("is_termination: window", "not decided: the best individual is not matched as an Option")
+        else:
+            seen = mir.reach(mfn, [some_edge[1]], blocked=set(upd) | {some_edge[0]})
+            if seen & set(mir.ret_blocks(mfn)):
+                r.fail("is_termination: window", "with a best individual present a path returns without update_and_check: the fitness window is not maintained in that generation (e.g. outside the "
+                       "exploitation phase), so after a phase switch the criterion looks at stale / never written rows", F.loc(m, mfn["bbs"][upd[0]]["t"]["ln"]))
+            else:
+                r.ok("is_termination: window", "update_and_check is passed on every path that has a best individual (the window is maintained in every phase)")
     ph = F.adts.get("rosomaxa::population::SelectionPhase")
     if ph is None:
         raise AnchorError("SelectionPhase")
@@ -385,6 +417,13 @@ def m1_statistics_formulas(F, r):
         num, den = _b(div[0], "Div")
         ok = _c(num, "f64>::sqrt") and num[0][2][0][0][0] == "call" and num[0][2][0][0][1].endswith("get_variance_mean") and num[0][2][0][1] == (".0",) \
             and _c(den, "get_variance_mean") and den[1] == (".1",)
+    cfn = F.fns[ST + "get_cv"]
+    guards = [st for _, _, st in mir.stmts(cfn) if st["r"]["k"] == "bin" and st["r"]["op"] in ("Eq", "Ne", "Lt", "Le", "Gt", "Ge")]
+    calls_g = [t for _, t in mir.calls(cfn) if t["callee"].split("::")[-1] in ("abs", "lt", "le", "gt", "ge", "total_cmp", "partial_cmp")]
+    exact = len(guards) == 1 and guards[0]["r"]["op"] in ("Eq", "Ne") and any(mir.is_const(o) and str(o["c"]).startswith("0") for o in guards[0]["r"]["o"]) and not calls_g
+    if ok and not exact:
+        r.fail("get_cv: zero-mean guard", "the `mean is zero` guard is not the exact test `mean == 0.` (a tolerance / magnitude test): a series with a tiny but non-zero mean and a large relative "
+               "variation is reported with cv = 0, so the variation criterion fires although the coefficient of variation is above the threshold", F.loc(ST + "get_cv", guards[0].get("ln") if guards else None))
     if ok:
         r.ok("get_cv", "sqrt(variance) / mean; 0 when the mean is 0")
     else:
